@@ -75,7 +75,14 @@ RULE = ('cases: (1) sinusoids amp*sin(2 pi f t+phi), f = edge x {0.1,0.3,0.5,0.8
         'zero; one sample with k >= 1 raises inside numpy.polyfit on the clean tree: probed, counted only), every add '
         'variant x 1..6 samples, running average on 1..6 samples with widths 1..min(25, 2n+3) and 1..25; '
         'f(A); f(B); f(A) with B of the same or another shape and the same or other option values; time steps that differ '
-        'by 0.1 % in add_signal. distinct = digest of the complete parameter set of the case.')
+        'by 0.1 % in add_signal. (11) round 5: scalar forms of every numeric argument - dt, filter_order, cut-off entries, '
+        'gibbs_extra / gibbs_range, poly_fit, constant, width as Python numbers, np.float64 / float32 / int64 / int32 / int8 / '
+        'uint8 / bool_ and 0-d arrays (mutable: snapshotted at call entry, compared bit-for-bit afterwards; float32 forms '
+        'name a value rounded to float32 beforehand; not next to the ends of the band / narrow bands); bool-dtype on/off '
+        'records in every record workload (x, y with disjoint pulses in the additivity cases); records of 1..20 samples WITH '
+        'Gibbs padding and gibbs_extra large enough for the padded record to exceed the edge extension; npts a power of two '
+        'with gibbs_extra = 0; every result array of the state cases overwritten by the caller, then the same call again. '
+        'distinct = digest of the complete parameter set of the case.')
 ASSUMPTIONS = ['finite real records; integer records of any width are in domain (the library must not compute in them)',
                'cut-offs 1e-4 Nyquist <= lo < hi <= (1 - 1e-4) Nyquist (general workload: < 0.8 Nyquist; the ends are driven by '
                'the corner-* classes; the bound is the record length of 1.3e6 samples, not the conditioning of the filter: it '
@@ -104,6 +111,10 @@ ASSUMPTIONS = ['finite real records; integer records of any width are in domain 
                'not judged; a shallow copy is only used after reset_values has rebound its values',
                'f(A); f(B); f(A): third == first to 1e-12 of max|result| (not bit-for-bit: summation order may depend on '
                'buffer alignment)',
+               'scalar forms: an UNSIGNED numpy filter_order (np.uint8(3)) makes scipy.signal.butter design another filter '
+               '(-N + 1 wraps): probed outside the monitors, judged since fix F45 of eqsig (order converted to a Python int); float filter_order / '
+               'gibbs options raise TypeError in the clean tree (slice index) and are not driven',
+               'settings other than dt (smoothing frequencies, response periods) are not named by the statement: not judged here',
                'oracles vf/oracles/butter.py are correct']
 
 CTX = None
@@ -155,9 +166,38 @@ def _wit(fn, pre, observed, **call):
     return w
 
 
+def _dtcopy(dt):
+    """A 0-d array is a MUTABLE scalar (`dt /= factor` changes the caller's step): snapshot it like any other array."""
+    return np.array(dt, copy=True) if isinstance(dt, np.ndarray) else dt
+
+
 def _snap(sig):
     v = np.array(sig.values, copy=True)
-    return {'values': v, 'dt': sig.dt, 'npts': sig.npts, 'cls': type(sig).__name__}
+    return {'values': v, 'dt': _dtcopy(sig.dt), 'npts': sig.npts, 'cls': type(sig).__name__}
+
+
+def _fz0(v):
+    """Bit image of a scalar argument handed over as a (mutable) ndarray, None for immutable forms."""
+    return _freeze(v) if isinstance(v, np.ndarray) else None
+
+
+def _check_dt_0d(ctx, fn, sig, pre):
+    """Round 5: the same 'time step preserved' verdict counted for the class of mutable (0-d array) time steps."""
+    if isinstance(pre['dt'], np.ndarray):
+        now = sig.dt
+        ok = bool(np.ndim(now) == 0 and np.all(np.asarray(now) == pre['dt']))
+        ctx.check(ok, 'mutable-0d-dt.preserved', lambda: _wit(fn, pre, {'dt_before': pre['dt'], 'dt_after': now}),
+                  '%s changed the time step handed over as a 0-d array: %r -> %r' % (fn, pre['dt'], now))
+
+
+def _check_scalar_arg(ctx, clause, fn, name, pre, now_obj):
+    """A numeric argument handed over as a 0-d array is bit-for-bit what it was at call entry."""
+    fr = pre.get('fz_' + name)
+    if fr is None:
+        return
+    now = _freeze(now_obj)
+    ctx.check(now == fr, clause, lambda: _wit(fn, pre, {'argument': name, 'before': _thaw_desc(fr), 'after': _thaw_desc(now)}),
+              '%s modified its %s argument (a 0-d array): %s -> %s' % (fn, name, _thaw_desc(fr), _thaw_desc(now)))
 
 
 def _finite(a):
@@ -205,6 +245,7 @@ def _pre_butter(args, kwargs):
     pre = _snap(args[0])
     if len(args) > 1 or 'cut_off' in kwargs:
         pre['cut_frozen'] = _freeze(args[1] if len(args) > 1 else kwargs['cut_off'])
+    pre['opt_frozen'] = {k: _freeze(v) for k, v in kwargs.items() if k != 'cut_off' and isinstance(v, np.ndarray)}
     return pre
 
 
@@ -219,6 +260,14 @@ def _post_butter(args, kwargs, result, pre):
                   lambda: _wit('butter_pass', pre, {'cut_off_before': _thaw_desc(pre['cut_frozen']),
                                                     'cut_off_after': _thaw_desc(now)}, **call),
                   'butter_pass modified its cut_off argument: %s -> %s' % (_thaw_desc(pre['cut_frozen']), _thaw_desc(now)))
+    if pre.get('opt_frozen'):
+        now_o = {k: _freeze(kwargs[k]) for k in pre['opt_frozen']}
+        ctx.check(now_o == pre['opt_frozen'], 'butter.option-argument-unchanged',
+                  lambda: _wit('butter_pass', pre, {'before': {k: _thaw_desc(v) for k, v in pre['opt_frozen'].items()},
+                                                    'after': {k: _thaw_desc(v) for k, v in now_o.items()}}, **call),
+                  'butter_pass modified an option handed over as a 0-d array: %s -> %s'
+                  % ({k: _thaw_desc(v) for k, v in pre['opt_frozen'].items()}, {k: _thaw_desc(v) for k, v in now_o.items()}))
+    _check_dt_0d(ctx, 'butter_pass', sig, pre)
     after = np.asarray(sig.values)
     ctx.check(after.ndim == 1 and len(after) == pre['npts'] and sig.npts == pre['npts'], 'butter.length-preserved',
               lambda: _wit('butter_pass', pre, {'npts_before': pre['npts'], 'npts_after': sig.npts,
@@ -344,9 +393,19 @@ def _check_detrend(ctx, api, before, after, k, wit):
               'detrended series differs from x - least-squares polynomial by %.3g (allowed %.3g)' % (e3, allowed))
 
 
+def _pre_remove_poly_method(args, kwargs):
+    pre = _snap(args[0])
+    k = _degree(args, kwargs, 1)
+    pre['k'] = _dtcopy(k)
+    pre['fz_poly_fit'] = _fz0(k)
+    return pre
+
+
 def _post_remove_poly_method(args, kwargs, result, pre):
     sig = args[0]
-    k = _degree(args, kwargs, 1)
+    _check_scalar_arg(CTX, 'detrend.degree-argument-unchanged', 'Signal.remove_poly', 'poly_fit', pre, _degree(args, kwargs, 1))
+    _check_dt_0d(CTX, 'Signal.remove_poly', sig, pre)
+    k = pre['k']
     CTX.check(sig.dt == pre['dt'] and sig.npts == pre['npts'] and len(sig.values) == pre['npts'],
               'detrend.method.length+dt-preserved',
               lambda: _wit('Signal.remove_poly', pre, {'npts_after': sig.npts, 'dt_after': sig.dt}, poly_fit=k),
@@ -357,12 +416,14 @@ def _post_remove_poly_method(args, kwargs, result, pre):
 
 def _pre_remove_poly_fn(args, kwargs):
     values = args[0] if args else kwargs['values']
+    k = _degree(args, kwargs, 1)
     return {'values': np.array(values, copy=True), 'dt': None, 'npts': len(values), 'cls': type(values).__name__,
-            'arg_frozen': _freeze(values)}
+            'arg_frozen': _freeze(values), 'k': _dtcopy(k), 'fz_poly_fit': _fz0(k)}
 
 
 def _post_remove_poly_fn(args, kwargs, result, pre):
-    k = _degree(args, kwargs, 1)
+    _check_scalar_arg(CTX, 'detrend.degree-argument-unchanged', 'generic.remove_poly', 'poly_fit', pre, _degree(args, kwargs, 1))
+    k = pre['k']
     values = args[0] if args else kwargs['values']
     CTX.check(_freeze(values) == pre['arg_frozen'], 'detrend.fn.argument-unchanged',
               lambda: _wit('generic.remove_poly', pre, {'container': type(values).__name__}, poly_fit=k),
@@ -443,8 +504,19 @@ def _check_arg_pure(ctx, fn, name, sig, pre):
               '%s modified its %s argument' % (fn, name))
 
 
-def _post_add_constant(args, kwargs, result, pre):
+def _pre_add_constant(args, kwargs):
+    pre = _snap(args[0])
     c = args[1] if len(args) > 1 else kwargs.get('constant')
+    pre['c'] = _dtcopy(c)
+    pre['fz_constant'] = _fz0(c)
+    return pre
+
+
+def _post_add_constant(args, kwargs, result, pre):
+    _check_scalar_arg(CTX, 'add_constant.argument-unchanged', 'add_constant', 'constant', pre,
+                      args[1] if len(args) > 1 else kwargs.get('constant'))
+    _check_dt_0d(CTX, 'add_constant', args[0], pre)
+    c = pre['c']          # the value the caller passed (a 0-d array is mutable)
     if np.ndim(c) != 0:
         CTX.observe('add_constant.non-scalar')
         return
@@ -472,6 +544,7 @@ def _post_add_series(args, kwargs, result, pre):
         CTX.observe('add_series.non-1d')
         return
     _check_arg_pure(CTX, 'add_series', 'series', args[0], pre)
+    _check_dt_0d(CTX, 'add_series', args[0], pre)
     _check_sum(CTX, 'add_series==values+series', 'add_series', args[0], pre, pre['arg_copy'], call)
 
 
@@ -548,10 +621,21 @@ def _exc_add_signal(args, kwargs, e, pre):
               % (mm, e, _unchanged(args[0], pre)))
 
 
+def _pre_running_average(args, kwargs):
+    pre = _snap(args[0])
+    w = args[1] if len(args) > 1 else kwargs.get('width', 1)
+    pre['width'] = _dtcopy(w)
+    pre['fz_width'] = _fz0(w)
+    return pre
+
+
 def _post_running_average(args, kwargs, result, pre):
     ctx = CTX
     sig = args[0]
-    width = args[1] if len(args) > 1 else kwargs.get('width', 1)
+    _check_scalar_arg(ctx, 'runavg.width-argument-unchanged', 'running_average', 'width', pre,
+                      args[1] if len(args) > 1 else kwargs.get('width', 1))
+    _check_dt_0d(ctx, 'running_average', sig, pre)
+    width = pre['width']          # the width the caller passed (a 0-d array is mutable)
     call = {'width': width}
     x = pre['values']
     try:
@@ -596,11 +680,11 @@ def install(ctx):
     import eqsig
     S = eqsig.single.Signal
     attach.wrap_method(S, 'butter_pass', _post_butter, pre=_pre_butter)
-    attach.wrap_method(S, 'remove_poly', _post_remove_poly_method, pre=_pre_sig)
-    attach.wrap_method(S, 'add_constant', _post_add_constant, pre=_pre_sig)
+    attach.wrap_method(S, 'remove_poly', _post_remove_poly_method, pre=_pre_remove_poly_method)
+    attach.wrap_method(S, 'add_constant', _post_add_constant, pre=_pre_add_constant)
     attach.wrap_method(S, 'add_series', _post_add_series, pre=_pre_add_arg('series'), on_exception=_exc_add_series)
     attach.wrap_method(S, 'add_signal', _post_add_signal, pre=_pre_add_arg('new_signal'), on_exception=_exc_add_signal)
-    attach.wrap_method(S, 'running_average', _post_running_average, pre=_pre_sig)
+    attach.wrap_method(S, 'running_average', _post_running_average, pre=_pre_running_average)
     attach.wrap(eqsig.fns.generic, 'remove_poly', _post_remove_poly_fn, pre=_pre_remove_poly_fn)
     _INSTALLED = True
 
@@ -616,18 +700,58 @@ def _end():
     CUR = None
 
 
-def _mk_cut(lo, hi, container):
+def _scalar(v, form):
+    """The same number handed over in another scalar form (checklist 28): Python float / int / bool, numpy scalars, 0-d
+    arrays (mutable). float32 forms: the generator has rounded the value to float32 beforehand, so the number is the same."""
+    if v is None or form in (None, 'py', 'float', 'int'):
+        return v
+    if form == 'np64':
+        return np.float64(v)
+    if form == 'np32':
+        return np.float32(v)
+    if form == '0d':
+        return np.array(float(v))
+    if form == '0d32':
+        return np.array(float(v), dtype=np.float32)
+    if form == 'pyint':
+        return int(v)
+    if form == 'pyfloat':
+        return float(v)
+    if form == 'np64i':
+        return np.int64(int(v))
+    if form == 'np32i':
+        return np.int32(int(v))
+    if form == 'np8i':
+        return np.int8(int(v))
+    if form == 'u8':
+        return np.uint8(int(v))
+    if form == '0di':
+        return np.array(int(v))
+    if form == 'bool':
+        return bool(v)
+    if form == 'npbool':
+        return np.bool_(v)
+    if form == '0dbool':
+        return np.array(bool(v))
+    raise ValueError(form)
+
+
+def _mk_cut(lo, hi, container, form=None):
+    if form is not None:
+        lo, hi = _scalar(lo, form), _scalar(hi, form)
     if container == 'list':
         return [lo, hi]
     if container == 'ndarray':
-        return np.array([lo, hi]) if (lo is not None and hi is not None) else np.array([lo, hi], dtype=object)
+        if lo is not None and hi is not None:
+            return np.array([lo, hi], dtype=np.float32) if form in ('np32', '0d32') else np.array([lo, hi])
+        return np.array([lo, hi], dtype=object)
     if container == 'ndarray-int':
         return np.array([int(lo), int(hi)])
     return (lo, hi)
 
 
-def _mk_sig(eqsig, cls, values, dt):
-    return (eqsig.AccSignal if cls == 'AccSignal' else eqsig.Signal)(values, dt)
+def _mk_sig(eqsig, cls, values, dt, dt_form=None):
+    return (eqsig.AccSignal if cls == 'AccSignal' else eqsig.Signal)(values, _scalar(dt, dt_form))
 
 
 FORMS = ('array', 'list', 'tuple', 'view2', 'revview', 'readonly')
@@ -660,13 +784,13 @@ def _apply_form(x, form):
 def _butter_kwargs(p):
     kw = {}
     if p['order'] != 4 or p.get('pass_order', True):
-        kw['filter_order'] = p['order']
+        kw['filter_order'] = _scalar(p['order'], p.get('order_form'))
     if p['gibbs'] is not None:
         kw['remove_gibbs'] = p['gibbs']
     if p.get('gibbs_extra') is not None and p['gibbs'] is not None:
-        kw['gibbs_extra'] = p['gibbs_extra']
+        kw['gibbs_extra'] = _scalar(p['gibbs_extra'], p.get('gx_form'))
     if p.get('gibbs_range') is not None and p['gibbs'] is not None:
-        kw['gibbs_range'] = p['gibbs_range']
+        kw['gibbs_range'] = _scalar(p['gibbs_range'], p.get('gx_form'))
     return kw
 
 
@@ -686,8 +810,8 @@ def case_sine(eqsig, ctx, p):
         x = x + float(p['offset'])
     if p.get('dtype') == 'float32':
         x = x.astype(np.float32)
-    sig = _mk_sig(eqsig, p.get('cls', 'AccSignal'), _apply_form(x, p.get('form')), p['dt'])
-    cut = _mk_cut(p['lo'], p['hi'], p['container'])
+    sig = _mk_sig(eqsig, p.get('cls', 'AccSignal'), _apply_form(x, p.get('form')), p['dt'], p.get('dt_form'))
+    cut = _mk_cut(p['lo'], p['hi'], p['container'], p.get('cut_form'))
     _begin('sine', p, expect='sine')
     try:
         _call_butter(sig, cut, p)
@@ -730,8 +854,8 @@ def _filtered(eqsig, p, values, container=None, ctx=None, cut_obj=None):
     """One monitored butter_pass execution; an exception on this in-domain call is recorded under the acceptance
     clause of the cut-off container and re-raised as _Rejected. cut_obj: an existing container object to reuse."""
     cont = container or p['container']
-    sig = _mk_sig(eqsig, p.get('cls', 'AccSignal'), _apply_form(values, p.get('form')), p['dt'])
-    cut = cut_obj if cut_obj is not None else _mk_cut(p['lo'], p['hi'], cont)
+    sig = _mk_sig(eqsig, p.get('cls', 'AccSignal'), _apply_form(values, p.get('form')), p['dt'], p.get('dt_form'))
+    cut = cut_obj if cut_obj is not None else _mk_cut(p['lo'], p['hi'], cont, p.get('cut_form'))
     if ctx is None:
         _call_butter(sig, cut, p)
         return np.array(sig.values)
@@ -763,6 +887,9 @@ def _padlen(p):
 
 def _exact_sum(x, y):
     """x + y in the records' own dtype, or None if it is not exactly representable there."""
+    if x.dtype.kind == 'b':
+        # on/off records: NumPy adds bools with OR, which is the arithmetic sum only where the pulses do not overlap
+        return None if bool(np.any(x & y)) else (x | y)
     if x.dtype.kind in 'iu':
         w = x.astype(np.int64) + y.astype(np.int64)
         info = np.iinfo(x.dtype)
@@ -782,6 +909,9 @@ def case_linear(eqsig, ctx, p):
     ft = _ftype(p['lo'], p['hi'])
     cl_add = 'butter.additive.%s.gibbs-%s' % (ft, gname(p['gibbs']))
     cl_hom = 'butter.homogeneous.%s' % ft
+    if not (_finite(x) and _finite(y)):
+        ctx.observe('linear.non-finite-record.outside-domain')      # finite real records only (ASSUMPTIONS)
+        return
     xy = _exact_sum(x, y)
     if xy is None:
         ctx.observe('linear.sum-not-representable-in-record-dtype')
@@ -812,6 +942,12 @@ def case_linear(eqsig, ctx, p):
                   'hi=%r order=%d gibbs=%r dt=%g dtype=%s form=%s'
                   % (err, None if idx is None else int(idx[0]), len(x), allowed, scale, ft, p['lo'], p['hi'],
                      p['order'], p['gibbs'], p['dt'], x.dtype, p.get('form')))
+        if p.get('mirror'):
+            # round 5: the same verdict counted per added input class (MIN_EVALS guards that the class is driven)
+            ctx.check(ok, 'butter.additive.class-%s' % p['mirror'],
+                      lambda: _witness(err=err, allowed=allowed, n=len(x), mirror=p['mirror']),
+                      'F(x+y) != F(x)+F(y) on the class %s: |diff|=%.3g (allowed %.3g), n=%d, %s gibbs=%r extra=%r dtype=%s'
+                      % (p['mirror'], err, allowed, len(x), ft, p['gibbs'], p.get('gibbs_extra'), x.dtype))
         sc2 = abs(c) * float(np.max(np.abs(xf)))
         allowed2 = _lin_allowed(p, sc2) + f32 * sc2
         ok, idx, err, _ = tol.worst(fcx, c * fx, scale=1.0, rtol=0.0, atol=allowed2)
@@ -911,20 +1047,21 @@ def case_detrend(eqsig, ctx, p):
 
             def run(v, frm=form, reuse=None):
                 vv = reuse if reuse is not None else _apply_form(v, frm)
+                kk = _scalar(k, p.get('k_form'))        # round 5: the degree as numpy scalar / 0-d array / float / bool
                 if api == 'method':
-                    s = _mk_sig(eqsig, p.get('cls', 'AccSignal'), vv, p['dt'])
-                    if p.get('noarg') and k == 0:
+                    s = _mk_sig(eqsig, p.get('cls', 'AccSignal'), vv, p['dt'], p.get('dt_form'))
+                    if p.get('noarg') and k == 0 and not p.get('k_form'):
                         s.remove_poly()
                     elif p.get('kw'):
-                        s.remove_poly(poly_fit=k)
+                        s.remove_poly(poly_fit=kk)
                     else:
-                        s.remove_poly(k)
+                        s.remove_poly(kk)
                     return s
-                if p.get('noarg') and k == 0:
+                if p.get('noarg') and k == 0 and not p.get('k_form'):
                     return eqsig.fns.generic.remove_poly(vv)
                 if p.get('kw'):
-                    return eqsig.fns.generic.remove_poly(vv, poly_fit=k)
-                return eqsig.remove_poly(vv, k) if hasattr(eqsig, 'remove_poly') else eqsig.fns.generic.remove_poly(vv, k)
+                    return eqsig.fns.generic.remove_poly(vv, poly_fit=kk)
+                return eqsig.remove_poly(vv, kk) if hasattr(eqsig, 'remove_poly') else eqsig.fns.generic.remove_poly(vv, kk)
             try:
                 held = _apply_form(x, form)
                 out = run(x, reuse=held)
@@ -934,10 +1071,10 @@ def case_detrend(eqsig, ctx, p):
                 r1b = np.array(out_b.values if api == 'method' else out_b, dtype=float)
                 # idempotence: detrend the detrended series again (the method: same object, second execution)
                 if api == 'method':
-                    out.remove_poly(k)
+                    out.remove_poly(_scalar(k, p.get('k_form')))
                     r2 = np.array(out.values, dtype=float)
                 else:
-                    r2 = np.array(eqsig.fns.generic.remove_poly(r1, k), dtype=float)
+                    r2 = np.array(eqsig.fns.generic.remove_poly(r1, _scalar(k, p.get('k_form'))), dtype=float)
                 # invariance: add a polynomial of degree <= k first
                 out3 = run(xf + poly, frm='array' if form in ('list', 'tuple') else form)
                 r3 = np.array(out3.values if api == 'method' else out3, dtype=float)
@@ -986,6 +1123,35 @@ def _probe_one_sample(eqsig, ctx, p):
         _end()
 
 
+def _probe_unsigned_order(eqsig, ctx, rng, j):
+    """filter_order as an UNSIGNED numpy integer (np.uint8 / np.uint16): scipy.signal.butter negates the order (-N + 1
+    wraps around) and designs another filter or raises. Whether an unsigned scalar is an admissible 'order 1..4' is for the
+    property owner to rule: the mechanism is probed outside the monitors and routed to a pending finding, never judged."""
+    x = gen.record(rng, 400, cls='noise')[0]
+    order = 1 + j % 4
+    cut = [(0.5, 10.0), (None, 10.0), (0.5, None), (1.0, 5.0)][j % 4]
+    with attach.paused():
+        ref = eqsig.AccSignal(x, 0.01)
+        ref.butter_pass(cut, filter_order=order)
+        import warnings
+        try:
+            with warnings.catch_warnings():
+                warnings.simplefilter('ignore')
+                s = eqsig.AccSignal(x, 0.01)
+                s.butter_pass(cut, filter_order=np.uint8(order))
+            same = s.values.shape == ref.values.shape and tol.close(s.values, ref.values, scale=float(np.max(np.abs(x))),
+                                                                   rtol=1e-9)
+            # ruled a genuine defect under the integer policy (integer arguments of any width are in domain) and repaired in
+            # eqsig (fix F45: the order is converted to a Python int): judged
+            ctx.check(bool(same), 'butter.unsigned-numpy-order==int-order',
+                      lambda: {'kind': 'direct', 'params': None, 'observed': {'fn': 'butter.unsigned-order', 'record': x, 'dt': 0.01,
+                                                                              'cut_off': list(cut), 'filter_order': order}},
+                      'butter_pass(%r, filter_order=np.uint8(%d)) differs from filter_order=%d' % (cut, order, order))
+        except Exception as e:
+            ctx.violation('butter.unsigned-numpy-order==int-order', {'record': x, 'cut_off': cut, 'filter_order': order},
+                          'butter_pass with filter_order=np.uint8(%d) raised %r' % (order, e))
+
+
 class _NotASignal(object):
     def __init__(self, values, dt):
         self.values = values
@@ -997,7 +1163,7 @@ def case_add(eqsig, ctx, p):
     """add_constant / add_series / add_signal, valid and mismatched, own buffer / own object / one argument object
     for two signals; verdicts come from the monitors."""
     x = np.asarray(p['x'])
-    sig = _mk_sig(eqsig, p.get('cls', 'AccSignal'), _apply_form(x, p.get('form')), p['dt'])
+    sig = _mk_sig(eqsig, p.get('cls', 'AccSignal'), _apply_form(x, p.get('form')), p['dt'], p.get('dt_form'))
     kw = bool(p.get('kw'))
     _begin('add', p)
     try:
@@ -1010,6 +1176,8 @@ def case_add(eqsig, ctx, p):
                 c = int(c)
             elif p.get('c_type') == 'np-int':
                 c = np.int64(int(c))
+            elif p.get('c_type') not in (None, 'float'):
+                c = _scalar(c, p['c_type'])       # round 5: np32, 0d, 0d32, 0di, bool, npbool, 0dbool
             try:
                 sig.add_constant(constant=c) if kw else sig.add_constant(c)
             except Exception as e:
@@ -1021,7 +1189,7 @@ def case_add(eqsig, ctx, p):
                 sers = [_apply_form(np.asarray(p['series']), p.get('series_container', 'array'))]
             sigs = [sig]
             if p.get('alias') == 'reuse':       # ONE series object added to two different signals
-                sigs.append(_mk_sig(eqsig, p.get('cls', 'AccSignal'), np.asarray(p['x2']), p['dt']))
+                sigs.append(_mk_sig(eqsig, p.get('cls', 'AccSignal'), np.asarray(p['x2']), p['dt'], p.get('dt_form')))
                 sers = sers * 2
             for sg, ser in zip(sigs, sers):
                 try:
@@ -1038,10 +1206,10 @@ def case_add(eqsig, ctx, p):
                 elif p.get('other_cls') == 'ndarray':
                     other = ov
                 else:
-                    other = _mk_sig(eqsig, p.get('other_cls', 'AccSignal'), ov, p['other_dt'])
+                    other = _mk_sig(eqsig, p.get('other_cls', 'AccSignal'), ov, p['other_dt'], p.get('other_dt_form'))
             sigs = [sig]
             if p.get('alias') == 'reuse':       # ONE other signal added to two different signals
-                sigs.append(_mk_sig(eqsig, p.get('cls', 'AccSignal'), np.asarray(p['x2']), p['dt']))
+                sigs.append(_mk_sig(eqsig, p.get('cls', 'AccSignal'), np.asarray(p['x2']), p['dt'], p.get('dt_form')))
             for sg in sigs:
                 try:
                     sg.add_signal(new_signal=other) if kw else sg.add_signal(other)
@@ -1053,7 +1221,7 @@ def case_add(eqsig, ctx, p):
 
 def case_runavg(eqsig, ctx, p):
     x = np.asarray(p['x'])
-    sig = _mk_sig(eqsig, p.get('cls', 'AccSignal'), _apply_form(x, p.get('form')), p['dt'])
+    sig = _mk_sig(eqsig, p.get('cls', 'AccSignal'), _apply_form(x, p.get('form')), p['dt'], p.get('dt_form'))
     _begin('runavg', p)
     try:
         w = p['width']
@@ -1061,6 +1229,8 @@ def case_runavg(eqsig, ctx, p):
             w = np.int64(w)
         elif p.get('w_type') in ('float', 'real'):
             w = float(w)
+        elif p.get('w_type') not in (None, 'int'):
+            w = _scalar(w, p['w_type'])       # round 5: np32i, np64, np32, 0di, 0d, u8, bool, npbool
         if p.get('noarg') and int(p['width']) == 1:
             sig.running_average()
         elif p.get('kw'):
@@ -1105,7 +1275,7 @@ REFUSED_OPS = ('bad-series', 'bad-signal', 'bad-butter')
 
 
 def _state_of(sig):
-    return np.array(sig.values, copy=True), sig.dt, sig.npts
+    return np.array(sig.values, copy=True), _dtcopy(sig.dt), sig.npts
 
 
 def _same_state(sig, st):
@@ -1173,7 +1343,7 @@ def case_history(eqsig, ctx, p):
     in addition the same call on a fresh object built from a copy of those values must give the same record."""
     import copy
     import pickle
-    sig = _mk_sig(eqsig, p.get('cls', 'AccSignal'), np.asarray(p['x']), p['dt'])
+    sig = _mk_sig(eqsig, p.get('cls', 'AccSignal'), np.asarray(p['x']), p['dt'], p.get('dt_form'))
     partners = []           # (object, its state when the two parted, how)
     for j, op in enumerate(p['ops'] + [{'op': 'end'}]):
         kind = op['op']
@@ -1306,6 +1476,34 @@ def case_state(eqsig, ctx, p):
                   lambda: _witness(op=name), 'a second object built from the same caller array changed during %s' % name)
         ctx.check(_freeze(x_in) == fx and _freeze(y_in) == fy, 'state.caller-array-unchanged',
                   lambda: _witness(op=name), 'the array handed to the constructor / function changed during %s' % name)
+        # round 5 (checklist 32): a result belongs to the caller. Every array handed out so far is overwritten in place,
+        # then the same call is made with the same arguments: it must give the first value again (a result table handed
+        # out by reference from a memo / lru_cache would now hold the caller's scribbles), and scribbling over a result
+        # must not reach the arguments (a result that IS the argument, or a view of it)
+        extra = [np.asarray(o['series']) for o in (op, op_b) if isinstance(o.get('series'), np.ndarray)]
+        f_extra = [_freeze(a) for a in extra]
+        wrote = 0
+        for a in (v1, v2, v3):
+            if isinstance(a, np.ndarray) and a.flags.writeable and a.size:
+                a[...] = -7.25e3
+                wrote += 1
+        if not wrote:
+            ctx.observe('state.no-writable-result-to-overwrite')
+            return
+        try:
+            s4, v4 = run(x_in)
+        except Exception as e:
+            ctx.exception('state.result-overwritten-then-same-call==first.%s' % name, _witness(op=name), e)
+            return
+        v4 = np.asarray(v4)
+        ctx.check(v4.shape == c1.shape and v4.dtype == c1.dtype
+                  and tol.close(v4, c1, scale=float(np.max(np.abs(c1))) if c1.size else 0.0, rtol=EXACT_RTOL),
+                  'state.result-overwritten-then-same-call==first.%s' % name, lambda: _witness(op=name),
+                  'after the caller overwrote the arrays of the earlier %s results, the same call with the same arguments '
+                  'no longer gives the first value (the result is handed out by reference from a memo?)' % name)
+        ctx.check(_freeze(x_in) == fx and _freeze(y_in) == fy and [_freeze(a) for a in extra] == f_extra,
+                  'state.overwriting-a-result-leaves-arguments-alone', lambda: _witness(op=name),
+                  'overwriting the result of %s changed an argument of the call (the result shares memory with it)' % name)
     finally:
         _end()
 
@@ -1802,6 +2000,103 @@ def typed_record(rng, n, dtype, frac=1.0, dyadic=False):
     return x, cls + tag + t2
 
 
+def bool_record(rng, n, p_on=None):
+    """on/off records of dtype bool (checklist 29): random switching, one rectangular pulse, a pulse train, mostly on with
+    drop-outs. NumPy adds bools with OR; the library casts kind 'b' to float on purpose."""
+    k = int(rng.integers(4))
+    x = np.zeros(n, dtype=bool)
+    if k == 0 or n < 3:
+        x = rng.random(n) < (p_on if p_on is not None else rng.uniform(0.1, 0.9))
+        name = 'random'
+    elif k == 1:
+        a = int(rng.integers(n))
+        x[a:a + int(rng.integers(1, max(2, n // 2)))] = True
+        name = 'pulse'
+    elif k == 2:
+        per = int(rng.integers(2, max(3, n // 4 + 2)))
+        x = (np.arange(n) % per) < max(1, per // 2)
+        name = 'train'
+    else:
+        x = ~(rng.random(n) < 0.1)
+        name = 'dropouts'
+    x = np.asarray(x, dtype=bool)
+    if n >= 2 and (x.all() or not x.any()):
+        x[int(rng.integers(n))] ^= True
+    return x, 'bool-' + name
+
+
+FLOAT_FORMS = ('np64', '0d', 'float', 'np32', '0d32')
+INT_FORMS = ('np64i', 'np32i', '0di', 'pyint')
+
+
+def _f32(v):
+    return None if v is None else float(np.float32(v))
+
+
+def r5_butter_forms(rng, p, allow32=True):
+    """Checklist 28 for butter_pass: time step, order, cut-off entries, gibbs_extra / gibbs_range as Python numbers, numpy
+    scalars and 0-d arrays. float32 forms: the value is rounded to float32 first, so every form names the same number
+    (designs next to the ends of the band and narrow bands keep float64: a relative 6e-8 of the corner would show there)."""
+    ff = FLOAT_FORMS if allow32 else FLOAT_FORMS[:3]
+    p['dt_form'] = ff[int(rng.integers(len(ff)))]
+    if p['dt_form'] in ('np32', '0d32'):
+        p['dt'] = _f32(p['dt'])
+    forms = list(INT_FORMS) + (['bool'] if p['order'] == 1 else [])
+    p['order_form'] = forms[int(rng.integers(len(forms)))]
+    p['pass_order'] = True
+    p['cut_form'] = ff[int(rng.integers(len(ff)))]
+    if p['cut_form'] in ('np32', '0d32'):
+        p['lo'], p['hi'] = _f32(p['lo']), _f32(p['hi'])
+    if p['gibbs'] is not None:
+        if p.get('gibbs_extra') is None:
+            p['gibbs_extra'] = 1
+        if p.get('gibbs_range') is None:
+            p['gibbs_range'] = 50
+        p['gx_form'] = INT_FORMS[int(rng.integers(3))]
+    return p
+
+
+R5_LINEAR_CLASSES = ('short-record-gibbs', 'bool-record', 'scalar-forms', 'no-padding-needed')
+R5_DTYPES = ['float64', 'float64', 'float32', 'int16', 'uint8', 'bool']
+
+
+def gen_linear_r5(rng, ftype, gibbs, mirror):
+    """Round 5 classes of the additivity / homogeneity workload:
+    'short-record-gibbs'  records of 1..6 (a few 7..20) samples WITH Gibbs padding and gibbs_extra large enough that the
+                          padded record is longer than the edge extension of the zero-phase filter (the library accepts
+                          them; without padding such records are outside the domain), all dtypes incl. bool
+    'bool-record'         on/off records of dtype bool, x and y with disjoint pulses (x | y is the arithmetic sum)
+    'scalar-forms'        dt / order / cut-off entries / gibbs options as numpy scalars and 0-d arrays
+    'no-padding-needed'   npts a power of two with gibbs_extra = 0: the padded length equals the record length"""
+    if mirror == 'short-record-gibbs':
+        g = gibbs or 'mid'
+        n = int(rng.integers(1, 7)) if rng.random() < 0.8 else int(rng.integers(7, 21))
+        p = gen_linear(rng, ftype, g, n_fixed=n, dtype_fixed=R5_DTYPES[int(rng.integers(len(R5_DTYPES)))])
+        padlen = 3 * (p['order'] * (2 if ftype == 'band' else 1) + 1)
+        e = 0
+        while 2 ** (int(math.ceil(math.log2(n))) + e) <= padlen:
+            e += 1
+        p['gibbs_extra'] = e + int(rng.integers(0, 3))
+        p['gibbs_range'] = [None, 1, n, 50][int(rng.integers(4))]
+        p['edge'] = p.get('edge', '')
+    elif mirror == 'bool-record':
+        p = gen_linear(rng, ftype, gibbs, n_fixed=int(rng.choice([30, 64, 100, 129, 1000, 4097])), dtype_fixed='bool')
+    elif mirror == 'no-padding-needed':
+        g = gibbs or 'end'
+        p = gen_linear(rng, ftype, g, n_fixed=int(rng.choice([32, 64, 128, 256, 1024, 4096])))
+        p['gibbs_extra'] = 0
+    else:
+        p = gen_linear(rng, ftype, gibbs)
+    if not (_finite(p['x']) and _finite(p['y'])):        # the generator's fault, never the library's
+        p['x'], p['y'] = np.nan_to_num(np.asarray(p['x'], dtype=float), nan=0.0, posinf=1.0, neginf=-1.0), \
+            np.nan_to_num(np.asarray(p['y'], dtype=float), nan=0.0, posinf=1.0, neginf=-1.0)
+    narrow = ftype == 'band' and (p['hi'] - p['lo']) < 0.11 * p['lo']
+    if mirror == 'scalar-forms' or rng.random() < 0.3:
+        r5_butter_forms(rng, p, allow32=not (p.get('edge') or narrow))
+    p['mirror'] = mirror
+    return p
+
+
 def _pick_dtype(rng, p64=0.55):
     return 'float64' if rng.random() < p64 else DTYPES[int(rng.integers(1, len(DTYPES)))]
 
@@ -1813,7 +2108,7 @@ def _wide_dt(rng):
     return min(gen.dt(rng), 0.1)
 
 
-def gen_linear(rng, ftype, gibbs):
+def gen_linear(rng, ftype, gibbs, n_fixed=None, dtype_fixed=None):
     dt = _wide_dt(rng)
     nyq = 0.5 / dt
     wn_lo = float(10 ** rng.uniform(-3.0, -0.4)) if rng.random() < 0.85 else float(10 ** rng.uniform(-3.7, -3.0))
@@ -1850,8 +2145,14 @@ def gen_linear(rng, ftype, gibbs):
         n = int(LONG_N[int(rng.integers(len(LONG_N)))])
     else:
         n = int(LIN_N[int(rng.integers(len(LIN_N)))])
-    dtype = _pick_dtype(rng)
-    if dtype == 'float64':
+    if n_fixed is not None:
+        n = int(n_fixed)
+    dtype = dtype_fixed or _pick_dtype(rng)
+    if dtype == 'bool':
+        x, cx = bool_record(rng, n)
+        y, cy = bool_record(rng, n)
+        y = y & ~x                       # disjoint pulses: x | y is the arithmetic sum
+    elif dtype == 'float64':
         x, cx = typed_record(rng, n, dtype)
         for _ in range(10):
             y, cy = typed_record(rng, n, dtype)
@@ -1875,7 +2176,7 @@ def gen_linear(rng, ftype, gibbs):
             x = x * (min(max(m, 1e-250), 1e289) / m)
             m = float(np.max(np.abs(x)))
         y0, cy = gen.record(rng, n, allow_const=False)
-        y = y0 / float(np.max(np.abs(y0))) * m * float(rng.uniform(0.1, 5.0))
+        y = y0 / (float(np.max(np.abs(y0))) or 1.0) * m * float(rng.uniform(0.1, 5.0))   # (a one-sample chirp is 0)
         cy += '/rescaled-to-extreme'
         c = float(rng.choice([2.0, -0.5, 3.0, -1.0]))
     # micro / mega amplitudes: scale across the decades where an absolute epsilon (np.isclose, 1e-8) would switch
@@ -1925,7 +2226,7 @@ DETREND_N = [8, 9, 10, 13, 16, 31, 32, 33, 63, 64, 65, 100, 127, 128, 129, 200, 
 SHORT_N = (1, 2, 3, 4, 5, 6)       # round 4: very short records, every length x every degree / add variant / width class
 
 
-def gen_detrend(rng, k, n_fixed=None):
+def gen_detrend(rng, k, n_fixed=None, dtype_fixed=None):
     r = rng.random()
     if n_fixed is not None:
         n = int(n_fixed)
@@ -1933,9 +2234,13 @@ def gen_detrend(rng, k, n_fixed=None):
         n = k + 1 + int(rng.integers(0, 3))          # minimal lengths: k+1 (exact interpolation), k+2, k+3
     else:
         n = int(DETREND_N[int(rng.integers(len(DETREND_N)))])
-    dtype = _pick_dtype(rng)
+    dtype = dtype_fixed or _pick_dtype(rng)
     spike = ''
-    if dtype != 'float64':
+    if dtype == 'bool':
+        x, cls = bool_record(rng, n, p_on=float(rng.uniform(0.02, 0.2)))
+        x[-1] = True                     # mostly off, on at the end: the last sample lies far from the mean
+        spike = '+endspike'
+    elif dtype != 'float64':
         x, cls = typed_record(rng, n, dtype, frac=0.3 if np.dtype(dtype).kind in 'iu' else 1.0)
         if np.dtype(dtype).kind in 'iu':         # the last sample at the end of the dtype's range
             info = np.iinfo(dtype)
@@ -2106,6 +2411,78 @@ def gen_runavg(rng, i, n_fixed=None):
             'cls': 'AccSignal' if rng.random() < 0.5 else 'Signal', 'record_class': cls}
 
 
+K_FORMS = ('np64i', 'np32i', 'np8i', 'u8', '0di', 'pyfloat', 'np64')
+C_FORMS = ('np32', '0d', '0d32', '0di', 'bool', 'npbool', '0dbool', 'np')
+W_FORMS = ('np32i', 'np64', 'np32', '0di', '0d', 'u8', 'bool', 'npbool')
+
+
+def _r5_dt_form(rng, p, keys=('dt',)):
+    form = FLOAT_FORMS[int(rng.integers(len(FLOAT_FORMS)))]
+    if form in ('np32', '0d32'):
+        for k in keys:
+            p[k] = _f32(p[k])
+    return form
+
+
+def gen_detrend_r5(rng, k, i):
+    """Degree as numpy integer / unsigned / 0-d array / integral float / (k = 1) bool; every second case a bool record;
+    the time step as numpy scalar / 0-d array."""
+    p = gen_detrend(rng, k, dtype_fixed='bool' if i % 2 else None)
+    forms = list(K_FORMS) + (['bool', 'npbool'] if k == 1 else [])
+    p['k_form'] = forms[int(rng.integers(len(forms)))]
+    p['dt_form'] = _r5_dt_form(rng, p)
+    return p
+
+
+def gen_add_r5(rng, i):
+    """Constants as np.float32 / 0-d arrays / bools, bool records and bool series (1 + 1 = 2, not OR), time steps of the
+    two signals in different scalar forms naming the same number (must be accepted) or really different (rejected)."""
+    p = gen_add(rng, i)
+    n = len(p['x'])
+    if i % 2:
+        p['x'] = bool_record(rng, n)[0]
+        p['record_class'] = 'bool'
+        for key in ('series', 'other_values', 'x2'):
+            if key in p and rng.random() < 0.7:
+                p[key] = bool_record(rng, len(p[key]))[0] if len(p[key]) else p[key]
+    if p['op'] == 'constant':
+        ct = C_FORMS[int(rng.integers(len(C_FORMS)))]
+        c = float(p['c'])
+        if ct in ('np32', '0d32'):
+            c = _f32(max(min(c, 1e30), -1e30))
+        elif ct == '0di':
+            c = float(int(max(min(c, 2.0 ** 60), -2.0 ** 60)))
+        elif ct in ('bool', 'npbool', '0dbool'):
+            c = 1.0
+        p.update(c=c, c_type=ct)
+    p['dt_form'] = _r5_dt_form(rng, p, keys=('dt', 'other_dt') if 'other_dt' in p else ('dt',))
+    if 'other_dt' in p:
+        fo = FLOAT_FORMS[int(rng.integers(len(FLOAT_FORMS)))]
+        if fo in ('np32', '0d32'):
+            if _f32(p['other_dt']) != p['other_dt'] and p['variant'] != 'signal-baddt':
+                fo = 'np64'          # the other signal's step must name the same number
+            else:
+                p['other_dt'] = _f32(p['other_dt'])
+        p['other_dt_form'] = fo
+    return p
+
+
+def gen_runavg_r5(rng, i):
+    p = gen_runavg(rng, i)
+    n = len(p['x'])
+    if i % 2:
+        p['x'], p['record_class'] = bool_record(rng, n)
+    wt = W_FORMS[int(rng.integers(len(W_FORMS)))]
+    w = max(1, int(p['width']))
+    if wt in ('bool', 'npbool'):
+        w = 1
+    elif wt in ('np64', 'np32', '0d') and rng.random() < 0.5:
+        w = w + 0.5                  # a real width: floor(w/2) positions on each side (exact in float32 too)
+    p.update(width=w, w_type=wt, noarg=False)
+    p['dt_form'] = _r5_dt_form(rng, p)
+    return p
+
+
 def _gen_op(rng, kind, n, dt):
     """One call specification for the history / state cases on a record of n samples."""
     nyq = 0.5 / dt
@@ -2219,10 +2596,12 @@ def gen_state(rng, i):
 # ------------------------------------------------------------------------------------------------------ workload
 COUNTS = {   # per shard
     'quick': {'sine': 60, 'edge': 15, 'sine_seq': 8, 'linear': 60, 'container': 6, 'short': 2, 'detrend': 70, 'add': 110,
-              'runavg': 80, 'history': 16, 'state': 18, 'detrend_short': 14, 'add_short': 33, 'runavg_short': 18},
+              'runavg': 80, 'history': 16, 'state': 18, 'detrend_short': 14, 'add_short': 33, 'runavg_short': 18,
+              'r5_sine': 6, 'r5_linear': 16, 'r5_detrend': 15, 'r5_add': 22, 'r5_runavg': 16, 'r5_history': 2},
     'thorough': {'sine': 900, 'edge': 180, 'sine_seq': 150, 'linear': 1200, 'container': 100, 'short': 6, 'detrend': 2000,
                  'add': 3300, 'runavg': 3000, 'history': 300, 'state': 600, 'detrend_short': 140, 'add_short': 330,
-                 'runavg_short': 180},
+                 'runavg_short': 180,
+                 'r5_sine': 60, 'r5_linear': 200, 'r5_detrend': 200, 'r5_add': 330, 'r5_runavg': 200, 'r5_history': 20},
 }
 
 
@@ -2442,6 +2821,84 @@ def run_shard(ctx):
                  sample={'n': len(xx), 'width': p['width'], 'dtype': p['x'].dtype.name, 'form': p['form']})
         ctx.observe('workload.short-record.runavg')
         case_runavg(eqsig, ctx, p)
+    # -- round 5 (checklist 28-32; the blocks come last: the random streams above are what they were)
+    # sinusoids with dt / order / cut-off entries / gibbs options as numpy scalars and 0-d arrays (absolute gain oracle)
+    for c in range(cnt['r5_sine']):
+        if ctx.out_of_time():
+            ctx.observe('out-of-time.r5-sine')
+            break
+        gi = c * nsh + sh
+        t, g, o = strata[(gi * 7 + 3) % len(strata)]
+        p = gen_sine(rng, t, g, o, ctx)
+        if p is None:
+            ctx.observe('sine.no-admissible-design')
+            continue
+        r5_butter_forms(rng, p, allow32=not p.get('narrow_band'))
+        gsq = O.butter_gain_sq(p['f'], p['dt'], p['order'], p['lo'], p['hi'])
+        ctx.case(_dig('sine', p), nontrivial=gsq >= 1e-4, cls='sine-scalar-forms-%s' % t, sample=p)
+        ctx.observe('workload.scalar-forms.sine')
+        case_sine(eqsig, ctx, p)
+    if sh < 4 and nsh >= 4:
+        _probe_unsigned_order(eqsig, ctx, rng, sh)
+
+    for c in range(cnt['r5_linear']):
+        if ctx.out_of_time():
+            ctx.observe('out-of-time.r5-linear')
+            break
+        gi = c * nsh + sh
+        mirror = R5_LINEAR_CLASSES[gi % len(R5_LINEAR_CLASSES)]
+        t, g = combos[(gi // len(R5_LINEAR_CLASSES)) % len(combos)]
+        p = gen_linear_r5(rng, t, g, mirror)
+        xa, ya = p['x'].astype(float), p['y'].astype(float)
+        ctx.case(_dig('linear', p), nontrivial=bool(np.any(xa) and np.any(ya) and not np.array_equal(xa, ya)),
+                 cls='linear-r5-%s-%s-%s' % (mirror, t, p['x'].dtype.name), sample=_short(p))
+        ctx.observe('workload.%s.linear' % mirror)
+        if p['x'].dtype == bool:
+            ctx.observe('workload.bool-record.linear')
+        case_linear(eqsig, ctx, p)
+
+    for c in range(cnt['r5_detrend']):
+        gi = c * nsh + sh
+        p = gen_detrend_r5(rng, gi % 5, gi // 5)
+        x = np.asarray(p['x'], dtype=float)
+        ctx.case(_dig('detrend', p), nontrivial=bool(len(x) > 1 and np.ptp(x) > 0),
+                 cls='detrend-r5-k%d-%s-%s' % (p['k'], p['k_form'], p['x'].dtype.name),
+                 sample={'k': p['k'], 'k_form': p['k_form'], 'n': len(x), 'dtype': p['x'].dtype.name, 'dt_form': p['dt_form']})
+        ctx.observe('workload.scalar-forms.detrend')
+        if p['x'].dtype == bool:
+            ctx.observe('workload.bool-record.detrend')
+        case_detrend(eqsig, ctx, p)
+
+    for c in range(cnt['r5_add']):
+        gi = c * nsh + sh
+        p = gen_add_r5(rng, gi)
+        ctx.case(_dig('add', p), nontrivial=len(p['x']) > 0, cls='add-r5-%s-%s' % (p['variant'], p['x'].dtype.name))
+        ctx.observe('workload.scalar-forms.add')
+        if p['x'].dtype == bool:
+            ctx.observe('workload.bool-record.add')
+        case_add(eqsig, ctx, p)
+
+    for c in range(cnt['r5_runavg']):
+        gi = c * nsh + sh
+        p = gen_runavg_r5(rng, gi)
+        xx = np.asarray(p['x'], dtype=float)
+        ctx.case(_dig('runavg', p), nontrivial=bool(p['width'] >= 2 and len(xx) >= 2 and np.ptp(xx) > 0),
+                 cls='runavg-r5-%s-%s' % (p['w_type'], p['x'].dtype.name),
+                 sample={'n': len(xx), 'width': p['width'], 'w_type': p['w_type'], 'dtype': p['x'].dtype.name})
+        ctx.observe('workload.scalar-forms.runavg')
+        if p['x'].dtype == bool:
+            ctx.observe('workload.bool-record.runavg')
+        case_runavg(eqsig, ctx, p)
+
+    for c in range(cnt['r5_history']):
+        if ctx.out_of_time():
+            ctx.observe('out-of-time.r5-history')
+            break
+        p = gen_history(rng)
+        p['dt_form'] = '0d' if c % 2 == 0 else 'np64'
+        ctx.case(_dig('history', p), nontrivial=True, cls='history-r5-dt-%s' % p['dt_form'],
+                 sample={'ops': [o['op'] for o in p['ops']], 'n': len(p['x'])})
+        case_history(eqsig, ctx, p)
     ctx.note('monitored_calls', dict(attach.CALLS))
     ctx.note('tolerances', {'gain': GAIN_TOL, 'detrend_rtol_x_cond': DETREND_RTOL, 'exact': EXACT_RTOL,
                             'float32_records': F32_RTOL, 'linear': 'scale*(1e-9 + 8 eps/wn^2)'})
@@ -2533,6 +2990,19 @@ def _min_evals():
             m['state.third-call==first-call.%s' % o] = st // (2 * len(STATE_OPS))
         m['state.twin-object-unchanged'] = st // 2
         m['state.caller-array-unchanged'] = st // 2
+        # round 5
+        for o in STATE_OPS:
+            m['state.result-overwritten-then-same-call==first.%s' % o] = st // (2 * len(STATE_OPS))
+        m['state.overwriting-a-result-leaves-arguments-alone'] = st // 2
+        for mir in R5_LINEAR_CLASSES:
+            m['butter.additive.class-%s' % mir] = cnt['r5_linear'] * nsh // (2 * len(R5_LINEAR_CLASSES))
+        # 0-d forms: 2 of 5 dt forms, 1 of 3..4 option forms, 1 of 7 degree forms, 4 of 8 constant forms on 1 of 11 add
+        # variants, 2 of 8 width forms (about half of the expected number of monitored executions each)
+        m['mutable-0d-dt.preserved'] = (cnt['r5_detrend'] * 4 + cnt['r5_add'] + cnt['r5_runavg']) * nsh * 2 // (5 * 2)
+        m['butter.option-argument-unchanged'] = (cnt['r5_sine'] + cnt['r5_linear'] * 4 // 3) * nsh // (4 * 2)
+        m['detrend.degree-argument-unchanged'] = cnt['r5_detrend'] * nsh * 8 // (8 * 2)
+        m['add_constant.argument-unchanged'] = max(1, cnt['r5_add'] * nsh * 4 // (11 * 8 * 2))
+        m['runavg.width-argument-unchanged'] = cnt['r5_runavg'] * nsh * 2 // (8 * 2)
         out[tier] = m
     return out
 
